@@ -103,7 +103,7 @@ func makeAR(rng *rand.Rand, cas []acctItem, tag string) []byte {
 // opKinds for evidence.
 var acctOps = []string{"put", "put", "put", "put", "put-ac", "put-raw", "get", "get-unknown", "getzstd", "put", "put-badhash", "put-short", "put-long", "put-readerr", "put-toolarge", "put-ac", "put-raw",
 	"get", "get-unknown", "get-partial", "getzstd", "contains", "findmissing", "getvalidated", "proxyfetch-ok", "proxyfetch-fail", "put-zero",
-	"proxyfetch-ac", "proxyfetch-raw", "restart"}
+	"proxyfetch-ac", "proxyfetch-raw", "restart", "overwrite-tail", "overwrite-tail", "put-zero"}
 
 func (w *acctWorld) step(rng *rand.Rand, concurrent bool) {
 	ctx := context.Background()
@@ -166,10 +166,43 @@ func (w *acctWorld) step(rng *rand.Rand, concurrent bool) {
 			outcome = "err"
 		}
 	case "put-zero":
-		kind := cache.RAW
+		kind := []cache.EntryKind{cache.RAW, cache.AC}[rng.IntN(2)]
 		err := w.c.Put(ctx, kind, w.acKeys[rng.IntN(len(w.acKeys))], 0, bytes.NewReader(nil))
 		if err != nil {
 			outcome = "err"
+		}
+	case "overwrite-tail":
+		// overwrite the least recently used entry (the next eviction victim) with a value of another size
+		snap := lib.Snapshot(w.c)
+		if len(snap.Entries) == 0 {
+			return
+		}
+		tail := snap.Entries[len(snap.Entries)-1]
+		kind, hash := splitKey(tail.Key)
+		var err error
+		if kind == cache.CAS {
+			var content []byte
+			for _, c := range w.cas {
+				if c.hash == hash {
+					content = c.content
+				}
+			}
+			if content == nil {
+				return
+			}
+			track(int64(len(content)), func() { err = w.c.Put(ctx, kind, hash, int64(len(content)), bytes.NewReader(content)) })
+		} else {
+			val := makeAR(rng, w.cas, w.caseID)
+			if rng.IntN(3) == 0 {
+				val = bytes.Repeat([]byte{'v'}, []int{1, 4000, 4096, 4097, 5000, 9000}[rng.IntN(6)]) // raw key space / disk API: any bytes
+			}
+			track(int64(len(val)), func() { err = w.c.Put(ctx, kind, hash, int64(len(val)), bytes.NewReader(val)) })
+			outcome = fmt.Sprintf("%dblocks-over-%dblocks.", (len(val)+4095)/4096, (tail.SizeOnDisk+4095)/4096)
+		}
+		if err != nil {
+			outcome += "err"
+		} else {
+			outcome += "ok"
 		}
 	case "put-ac", "put-raw":
 		kind := cache.AC
@@ -613,7 +646,8 @@ func runAcctEngine(r *lib.Run, which string) {
 		storage := []string{"zstd", "uncompressed"}[rng.IntN(2)]
 		withProxy := rng.IntN(5) == 0
 		viaServer := rng.IntN(5) == 0
-		maxes := []int64{8 * lib.KiB, 12 * lib.KiB, 16 * lib.KiB, 40 * lib.KiB, 100 * lib.KiB, 256 * lib.KiB, lib.MiB, 4 * lib.MiB}
+		// (max_size need not be a multiple of the 4 KiB accounting block)
+		maxes := []int64{8 * lib.KiB, 12 * lib.KiB, 16 * lib.KiB, 40 * lib.KiB, 100 * lib.KiB, 256 * lib.KiB, lib.MiB, 4 * lib.MiB, 10000, 20479, 50001, 100*lib.KiB + 123, lib.MiB + 4095}
 		max := maxes[rng.IntN(len(maxes))]
 		w := &acctWorld{r: r, which: which, rng: rng, max: max, storage: storage, caseID: fmt.Sprintf("%s-s%d-h%d", which, r.Seed, i)}
 		w.ownDir = pool.Get()
@@ -743,12 +777,12 @@ func runAcctEngine(r *lib.Run, which string) {
 			break
 		}
 	}
-	if which == "C03" && r.Violations() == 0 {
+	if r.Violations() == 0 {
 		// the forced schedules of C07 (readers of corrupt entries vs eviction / re-upload, refused commits, fetch vs
-		// upload ...) judged here for the accounting invariant only
+		// upload ...) judged here for the accounting invariant only (C03) / for directory == index only (C04)
 		hc := lib.NewHookCtl(uint64(r.Seed))
 		hc.Install()
-		runGateScenarios(r, hc, pool, rng, r.N(3, 30), true)
+		runGateScenarios(r, hc, pool, rng, r.N(3, 30), map[string]string{"C03": "acct", "C04": "dir"}[which])
 		hc.Remove()
 	}
 	hookHits.Range(func(k, v any) bool {
